@@ -8,6 +8,7 @@ use std::panic::{AssertUnwindSafe, catch_unwind};
 use librqbit_utp::verif as v;
 
 mod comp_cubic;
+mod comp_disp;
 mod comp_mtu;
 mod comp_rtte;
 mod comp_rx;
@@ -28,6 +29,7 @@ const DISPATCHERS: &[fn(&[&str]) -> Option<String>] = &[
     comp_wire::dispatch,
     comp_vsock::dispatch,
     comp_mtu::dispatch,
+    comp_disp::dispatch,
 ];
 
 fn run_consts() -> String {
